@@ -45,12 +45,21 @@ fn check_greeting(case: &GreetingCase) -> CaseResult {
     r
 }
 
-fn greeting_bytes() -> impl Strategy<Value = B> {
+fn greeting_bytes(huge: bool) -> impl Strategy<Value = B> {
+    let top = if huge { 22u32 } else { 14 };
     let version = prop_oneof![
         5 => "[0-9]{1,2}\\.[0-9]{1,2}(\\.[0-9]{1,3})?",
         3 => "[^\\n]{1,30}",
         1 => "[^\\n]{4080,4110}",
         1 => "[^\\n]{8000,20000}",
+        // the whole line is an exact multiple of a network-ish read size (the read that delivers the
+        // line feed is completely full), or of a power of two
+        2 => (prop_oneof![crate::seg::net_chunk(), Just(512usize), Just(4096)], 1..=4usize, any::<bool>()).prop_map(|(c, k, ascii)| {
+            let n = c * k - 8;
+            if ascii { "7".repeat(n) } else { format!("{}{}", "\u{e9}".repeat(n / 2), "x".repeat(n % 2)) }
+        }),
+        // sizes on a logarithmic scale up to 4 MiB
+        1 => (12..=top, -1..=1i32).prop_map(|(k, d)| "v".repeat(((1i32 << k) + d) as usize)),
     ];
     prop_oneof![
         6 => version.clone().prop_map(|v| B(format!("OK MPD {v}\n").into_bytes())),
@@ -289,10 +298,20 @@ pub fn property(_tier: Tier) -> Property {
         parts: vec![
             Box::new(RandomPart {
                 name: "greeting",
-                rule: "proptest: greeting bytes = valid (numeric versions, arbitrary UTF-8 versions, versions beyond 4 KiB and 8-20 KiB) | one byte of the prefix flipped | empty version | invalid UTF-8 | wrong case / missing blank | proper prefix of a valid greeting | empty; one generated segmentation; blocking / async / async+pending connect; judged by the reference greeting classifier: Ok(version verbatim) iff 'OK MPD <non-empty utf8>\\n', InvalidMessage for a malformed line, UnexpectedEof for a viable proper prefix. non-trivial = segmented or not a valid greeting",
+                rule: "proptest: greeting bytes = valid (numeric versions, arbitrary UTF-8 versions, versions beyond 4 KiB and 8-20 KiB, lines that are an exact multiple of 536/1024/1448/1460/1500/9000/... bytes, versions of 2^k+-1 bytes up to 4 MiB) | one byte of the prefix flipped | empty version | invalid UTF-8 | wrong case / missing blank | proper prefix of a valid greeting | empty; one generated segmentation of the greeting bytes themselves (random cuts over its whole length, fixed chunks incl. network read sizes, one-byte); blocking / async / async+pending connect; judged by the reference greeting classifier: Ok(version verbatim) iff 'OK MPD <non-empty utf8>\\n', InvalidMessage for a malformed line, UnexpectedEof for a viable proper prefix. non-trivial = segmented or not a valid greeting",
                 cases: (20_000, 5_000_000),
                 strategy: Box::new(|_t| {
-                    (greeting_bytes(), seg_strategy(40), (0..3usize).prop_map(|i| FLAVOURS[i]))
+                    greeting_bytes(true)
+                        .prop_flat_map(|bytes| {
+                            let n = bytes.0.len();
+                            // byte-sized reads over megabytes only cost time
+                            let seg = if n > 100_000 {
+                                prop_oneof![Just(Seg::Whole), Just(Seg::Chunk(65_535)), Just(Seg::Chunk(60_000)), Just(Seg::Chunk(1 << 20)), Just(Seg::Cuts(vec![n.saturating_sub(1)])), Just(Seg::Cuts(vec![n.saturating_sub(2), n / 2]))].boxed()
+                            } else {
+                                prop_oneof![3 => seg_strategy(n), 1 => crate::seg::net_chunk().prop_map(Seg::Chunk)].boxed()
+                            };
+                            (Just(bytes), seg, (0..3usize).prop_map(|i| FLAVOURS[i]))
+                        })
                         .prop_map(|(bytes, seg, flavour)| GreetingCase { bytes, seg, flavour })
                         .boxed()
                 }),
@@ -303,7 +322,7 @@ pub fn property(_tier: Tier) -> Property {
                 rule: "proptest over the simulator: the same greeting byte classes fed to Client::connect under whole/per-line/one-byte/chunked segmentation, the peer closing after them; connect must succeed with the version verbatim iff the bytes are a valid greeting line, otherwise fail with InvalidMessage / UnexpectedEof as the greeting grammar says. non-trivial = invalid or segmented",
                 cases: (5_000, 300_000),
                 strategy: Box::new(|_t| {
-                    (greeting_bytes(), crate::props::simgen::seg_pattern(), any::<u64>())
+                    (greeting_bytes(false), crate::props::simgen::seg_pattern(), any::<u64>())
                         .prop_map(|(bytes, seg, sched_seed)| ClientGreetingCase { bytes, seg, sched_seed })
                         .boxed()
                 }),
